@@ -20,24 +20,24 @@ def catalogue():
         'pFar': PixCoord(2000.0, 3.0), 'pFarC': PixCoord(2000.005, 3.0), 'pO': PixCoord(0.0, 0.0), 'pOc': PixCoord(4e-6, 0.0), 'parr3': PixCoord([0, 4, 2], [0, 0, 3]),
         'parr4': PixCoord([0.0, 4, 4, 0], [0.0, 0, 3, 3]), 'p2d': PixCoord([[0, 1], [2, 3]], [[0, 1], [2, 3]]),
         'tuple': (1, 2),
-        'sA': sA, 'sB': sB, 'sAobs': SkyCoord(10.0, 20.0, unit='deg', frame='icrs', obstime='J2010'), 'sarr3': SkyCoord([1, 2, 3], [4, 5, 5.5], unit='deg'),
+        'sA': sA, 'sB': sB, 'sAobs': SkyCoord(10.0, 20.0, unit='deg', frame='icrs', obstime='J2010'), 'sAnear': SkyCoord(10.0 * u.deg, 20.0 * u.deg, distance=2 * u.kpc, frame='icrs'), 'sAfar': SkyCoord(10.0 * u.deg, 20.0 * u.deg, distance=5 * u.kpc, frame='icrs'), 'sarr3': SkyCoord([1, 2, 3], [4, 5, 5.5], unit='deg'),
         'sarr4': SkyCoord([1, 2, 3, 2], [4, 5, 5.5, 6], unit='deg', frame='fk5'),
         's2d': SkyCoord([[1, 2], [3, 4]], [[4, 5], [5, 6]], unit='deg'),
-        'a0': 0 * u.deg, 'a30': 30 * u.deg, 'arad': 0.5 * u.rad, 'aAngle': Angle(10, 'deg'), 'aneg': -45 * u.deg,
+        'a0': 0 * u.deg, 'a30': 30 * u.deg, 'a390': 390 * u.deg, 'arad': 0.5 * u.rad, 'aAngle': Angle(10, 'deg'), 'aneg': -45 * u.deg,
         'aarr': [1, 2] * u.deg, 'a30am': 1800 * u.arcmin, 'q180as': 180 * u.arcsec,
         'q1as': 1 * u.arcsec, 'q3am': 3 * u.arcmin, 'q2deg': 2 * u.deg, 'qinf': float('inf') * u.deg,
         'qnan': float('nan') * u.deg,
         # the next double: still a different value (equality is strict)
         'f4u': float(np.nextafter(4.0, 5.0)), 'a30u': float(np.nextafter(30.0, 31.0)) * u.deg, 'q2degu': float(np.nextafter(2.0, 3.0)) * u.deg,
         # one-element arrays are not scalars
-        'arr1': np.array([2.0]), 'list1': [2.0], 'narr1': np.array([5]), 'parr1': PixCoord([1.0], [2.0]),
+        'arr1': np.array([4.0]), 'list1': [4.0], 'narr1': np.array([5]), 'parr1': PixCoord([1.0], [2.0]),
         'sarr1': SkyCoord([10.0], [20.0], unit='deg'), 'aarr1': [30.0] * u.deg, 'aAngle1': Angle([45.0], 'deg'), 'qarr1': [2.0] * u.deg,
         # member regions of compounds carry their own meta/visual (a compound made without meta shares region1's)
         'regP1': CirclePixelRegion(PixCoord(0, 0), 1.0, meta={'label': 'member'}, visual={'color': 'cyan'}),
         'regP2': RectanglePixelRegion(PixCoord(1, 1), 2, 3),
         'regS1': CircleSkyRegion(sA, 1 * u.arcsec, meta={'label': 'member'}, visual={'color': 'cyan'}), 'regS2': RectangleSkyRegion(sB, 1 * u.deg, 2 * u.deg),
         'tHello': 'hello', 'tEmpty': '', 'tPadded': '  padded label\t ',
-        'op_and': operator.and_, 'op_or': operator.or_,
+        'op_and': operator.and_, 'op_or': operator.or_, 'op_lamA': (lambda a, b: a & b), 'op_lamB': (lambda a, b: a | b),
     }
 
 
@@ -109,6 +109,7 @@ class World:
             if isinstance(v, SkyCoord):
                 return (v.frame.name == tokval.frame.name and v.shape == tokval.shape
                         and all(str(getattr(v, a_, None)) == str(getattr(tokval, a_, None)) for a_ in ('obstime', 'equinox'))
+                        and str(v.distance) == str(tokval.distance)
                         and np.array_equal(v.spherical.lon.deg, tokval.spherical.lon.deg)
                         and np.array_equal(v.spherical.lat.deg, tokval.spherical.lat.deg))
             if isinstance(v, Region):
